@@ -12,7 +12,7 @@ import (
 func init() {
 	register("C03", &ruleSet{
 		run:    runC03,
-		floors: map[string]int{"O1": 3, "O2": 1, "O3": 6, "O4": 5, "O5": 2},
+		floors: map[string]int{"O1": 3, "O2": 1, "O3": 6, "O4": 9, "O5": 2},
 		explain: "Decides structurally for both partitioned strategies: (O1) admission predicate: a request whose partition was found is refused on exactly the paths that " +
 			"established total.busy >= total.limit AND bin.busy >= bin.limit (comparator directions and operand fields checked; IsLimitExceeded is busy >= limit of the bin), " +
 			"and granted on every other such path; the predicate strategy visits partitions in registration order and decides inside the first matching iteration; no match " +
